@@ -96,16 +96,16 @@ for _n, _cfg in [("c0", "upsampling 1, no extra channel"), ("c1", "upsampling 2"
                  ("ec_b", "upsampling 1, one extra channel not upsampled"), ("ec_c", "upsampling 4, extra channels (4x,0) and (1x,3)"),
                  ("ec_d", "upsampling 1, extra channel (2x, dim_shift 3): cumulative 4")]:
     K("ru.pad_upsampling_" + _n, ["C06", "C01"], "jxl-render", RU, RUM, "pad_upsampling_" + _n, "complete", ["pad_upsampling"],
-      _cfg + "; " + _RU_UP)
+      _cfg + "; " + _RU_UP, timeout=600)
 _RU_PC = ("all filter settings symbolic (EPF off/1/2/3 iterations, Gabor on/off, do_ycbcr); region within +-(2^30+2^13). Ensures result >= request at "
           "colour resolution grown on every side by upsampling(2 if upsampled) + EPF(2/3/6: kernel reach of steps 1 / 1-2 / 0-2) + Gabor(1) + "
           "chroma upsampling(1); whole 8x8 blocks when EPF is on; even-aligned when do_ycbcr; identity when nothing is enabled. "
           "NOT detected: an amount larger than required (the code pads 5 for 2 EPF iterations where 3 suffice).")
-for _n, _cfg, _tier in [("c0", "upsampling 1", "quick"), ("c1", "upsampling 2", "quick"), ("c2", "upsampling 4", "quick"), ("c3", "upsampling 8", "quick"),
+for _n, _cfg, _tier in [("c0", "upsampling 1", "quick"), ("c1", "upsampling 2", "thorough"), ("c2", "upsampling 4", "thorough"), ("c3", "upsampling 8", "thorough"),
                         ("ec_a", "upsampling 2 + extra channels with cumulative shift 6 and 2", "thorough"),
                         ("ec_c", "upsampling 4 + extra channels (4x,0),(1x,3)", "thorough")]:
     K("ru.pad_color_region_" + _n, ["C06", "C01"], "jxl-render", RU, RUM, "pad_color_region_" + _n, "complete",
-      ["pad_color_region", "pad_upsampling", "Region::container_aligned"], _cfg + "; " + _RU_PC, tier=_tier, timeout=600)
+      ["pad_color_region", "pad_upsampling", "Region::container_aligned"], _cfg + "; " + _RU_PC, tier=_tier, timeout=900)
 for _n, _cfg in [("a", "no upsampling, no filter"), ("b", "upsampling 2, EPF 3 iterations, Gabor"), ("c", "upsampling 8, EPF 1, Gabor, YCbCr"),
                  ("d", "EPF 2, YCbCr"), ("e", "upsampling 4 + extra channels, EPF 2, Gabor")]:
     K("ru.pad_color_region_monotone_" + _n, ["C06"], "jxl-render", RU, RUM, "pad_color_region_monotone_" + _n, "complete",
@@ -128,9 +128,30 @@ K("fb.copy_from_f32_u8", ["C15", "C01"], "jxl-oxide", FB, FBM, "copy_from_f32_u8
 K("fb.copy_from_f32_u16", ["C15", "C01"], "jxl-oxide", FB, FBM, "copy_from_f32_u16_contract", "complete",
   ["<u16 as Sealed>::copy_from_f32"],
   "all f32 bit patterns: NaN -> 0; clamped to [0, 65535]; otherwise |result - 65535*v| <= 0.5 + 2^-8")
-K("fb.copy_from_f32_monotone", ["C15"], "jxl-oxide", FB, FBM, "copy_from_f32_monotone", "complete",
-  ["<u8 as Sealed>::copy_from_f32", "<u16 as Sealed>::copy_from_f32", "<f32 as Sealed>::copy_from_f32"],
-  "a <= b (non-NaN) => u8(a) <= u8(b) and u16(a) <= u16(b), all pairs of f32; f32 -> f32 is the bit identity")
+K("fb.copy_from_f32_monotone_u8", ["C15"], "jxl-oxide", FB, FBM, "copy_from_f32_monotone_u8", "complete",
+  ["<u8 as Sealed>::copy_from_f32", "<f32 as Sealed>::copy_from_f32"],
+  "a <= b (non-NaN) => u8(a) <= u8(b), all pairs of f32; f32 -> f32 is the bit identity")
+K("fb.copy_from_f32_monotone_u16", ["C15"], "jxl-oxide", FB, FBM, "copy_from_f32_monotone_u16", "complete",
+  ["<u16 as Sealed>::copy_from_f32"], "a <= b (non-NaN) => u16(a) <= u16(b), all pairs of f32", timeout=600)
+_FB_G = ("1x1 AlignedGrid holding a symbolic sample, read at (0,0) or at any position outside: ")
+for _t, _g, _c in [("u8", "i32", "8-bit samples in a 32-bit buffer: exact copy clamped to 0..=255, 0 outside"),
+                   ("u8", "i16", "8-bit samples in a 16-bit buffer: exact copy clamped to 0..=255, 0 outside"),
+                   ("u8", "f32", "float buffer with 8-bit depth: same result as copy_from_f32 (rounded, clamped, NaN -> 0)"),
+                   ("u16", "i32", "16-bit samples in a 32-bit buffer: exact copy clamped to 0..=65535, 0 outside"),
+                   ("u16", "i16", "16-bit samples in a 16-bit buffer: exact copy, negative -> 0"),
+                   ("u16", "f32", "float buffer with 16-bit depth: same result as copy_from_f32")]:
+    K("fb.copy_from_grid_%s_%s" % (_t, _g), ["C15", "C01"], "jxl-oxide", FB, FBM, "copy_from_grid_%s_%s" % (_t, _g), "complete",
+      ["<%s as Sealed>::copy_from_grid" % _t], _FB_G + _c, tier="thorough", timeout=900)
+K("fb.from_grids_int", ["C15", "C01"], "jxl-oxide", FB, FBM, "from_grids_int",
+  "bounded:1x1 copy region, one 32-bit and one 16-bit integer channel, all 8 orientations, all sample values",
+  ["FrameBuffer::from_grids", "BitDepth::parse_integer_sample"],
+  "integer channels are scaled with their own bit depth (== parse_integer_sample), interleaved in channel order", tier="thorough", timeout=900)
+for _o in range(1, 9):
+    K("fb.from_grids_o%d" % _o, ["C15", "C01"], "jxl-oxide", FB, FBM, "from_grids_o%d" % _o,
+      "bounded:copy region 3x2 at the origin, 2 float channels (3x2 grid at the origin, 1x1 grid at (1,0)), all sample values; orientation %d" % _o,
+      ["FrameBuffer::from_grids"],
+      "output dimensions == spec_oriented_dims; stored sample (x,y) of channel c lands at index c + (spec_orientation(x,y)) * channels; "
+      "samples outside a channel's region read 0", tier="thorough", timeout=1200)
 
 # ---- jxl-image/lib.rs ---------------------------------------------------------------------------------------------
 CANARIES["jxl-image"] = dict(anchor=IM, module=IMM, harness="canary", kind="complete", fns=[], timeout=60)
